@@ -112,6 +112,7 @@ func lineOf(pr *Prog, n ast.Node) string {
 }
 
 type pathEnum struct {
+	nameFd          *ast.FuncDecl // the function whose naming of variables applies to this enumeration (varKey)
 	callOrd         map[*ast.CallExpr]string
 	fd              *ast.FuncDecl
 	uniq            int
@@ -144,6 +145,12 @@ func enumPathsOpt(info *types.Info, stmts []ast.Stmt, ev func(n ast.Node) []Even
 }
 
 func (pe *pathEnum) run(stmts []ast.Stmt) ([]Path, *pathEnum) {
+	curEnumFd = pe.fd
+	if curEnumFd == nil && len(stmts) > 0 && gProg != nil {
+		// a region of a function: names and helper bindings are those of the function it is written in
+		curEnumFd = gProg.enclosingFuncDecl(stmts[0].Pos())
+	}
+	pe.nameFd = curEnumFd
 	prev := curEnum
 	curEnum = pe
 	defer func() { curEnum = prev }()
@@ -219,7 +226,7 @@ var curEnum *pathEnum
 var curFrames []*inlineFrame
 
 func (pe *pathEnum) xlat(ver map[types.Object]int, defs map[types.Object]string) *condXlat {
-	return &condXlat{info: pe.info, fd: pe.fd, ver: ver, uniq: &pe.uniq, pure: pe.pure, defs: defs, callOrd: pe.callOrd, pathMode: true}
+	return &condXlat{info: pe.info, fd: pe.fd, ver: ver, uniq: &pe.uniq, pure: pe.pure, defs: defs, callOrd: pe.callOrd, pathMode: true, nameFd: pe.nameFd}
 }
 
 func (pe *pathEnum) xlatP(p *Path) *condXlat { return pe.xlat(p.ver, p.defs) }
@@ -293,6 +300,10 @@ func (pe *pathEnum) seq(in []Path, stmts []ast.Stmt) []Path {
 func (pe *pathEnum) assigned(s ast.Stmt) []types.Object {
 	var out []types.Object
 	add := func(e ast.Expr) {
+		if o := lhsObject(pe.info, e); o != nil {
+			out = append(out, o)
+			return
+		}
 		if id, ok := ast.Unparen(e).(*ast.Ident); ok {
 			if o := pe.info.ObjectOf(id); o != nil {
 				out = append(out, o)
@@ -301,8 +312,18 @@ func (pe *pathEnum) assigned(s ast.Stmt) []types.Object {
 	}
 	switch x := s.(type) {
 	case *ast.AssignStmt:
-		for _, l := range x.Lhs {
+		for i, l := range x.Lhs {
 			add(l)
+			if len(x.Lhs) == len(x.Rhs) {
+				// x = &T{…} of an owned struct: all its field variables are assigned (pseudo.go)
+				if root, st, _ := ownedLiteral(pe.info, l, x.Rhs[i]); root != nil {
+					for j := 0; j < st.NumFields(); j++ {
+						if f := st.Field(j); f.Pkg() != nil && isRepoPkg(f.Pkg()) {
+							out = append(out, pseudoFor(root, f))
+						}
+					}
+				}
+			}
 		}
 	case *ast.IncDecStmt:
 		add(x.X)
@@ -367,25 +388,64 @@ func (pe *pathEnum) applyAssign(q *Path, s ast.Stmt, assigned []types.Object) {
 					if o == nil {
 						continue
 					}
-					name := varKey(o)
-					if v := nv[o]; v > 0 {
-						name = fmt.Sprintf("%s@%d", name, v)
+					synth = append(synth, zeroFacts(o, nv)...)
+				}
+			}
+		}
+	}
+	if isAssign && len(as.Lhs) == len(as.Rhs) {
+		// x := &T{…} for a struct the function owns: the fields that are not given hold their zero values, the
+		// others the (pure) values given (pseudo.go)
+		for i, l := range as.Lhs {
+			root, st, cl := ownedLiteral(pe.info, l, as.Rhs[i])
+			if root == nil {
+				continue
+			}
+			given := map[string]ast.Expr{}
+			keyed := true
+			if cl != nil {
+				for _, el := range cl.Elts {
+					kv, ok := el.(*ast.KeyValueExpr)
+					if !ok {
+						keyed = false
+						break
 					}
-					switch t := o.Type().Underlying().(type) {
-					case *types.Basic:
-						if t.Info()&types.IsBoolean != 0 {
-							synth = append(synth, &FLit{"b:" + name, 2, 1})
-						}
-						if t.Info()&types.IsString != 0 {
-							synth = append(synth, &FLit{eqAtom("const:\"\"", name), 2, 2})
-						}
-						if t.Info()&types.IsInteger != 0 {
-							k, _ := orderAtom("const:0", name)
-							synth = append(synth, &FLit{k, 3, 2})
-						}
-					case *types.Pointer, *types.Interface, *types.Map, *types.Slice, *types.Chan, *types.Signature:
-						synth = append(synth, &FLit{eqAtom("nil", name), 2, 2})
+					if k, ok := kv.Key.(*ast.Ident); ok {
+						given[k.Name] = kv.Value
 					}
+				}
+			}
+			if !keyed {
+				continue
+			}
+			for j := 0; j < st.NumFields(); j++ {
+				f := st.Field(j)
+				if f.Pkg() == nil || !isRepoPkg(f.Pkg()) {
+					continue
+				}
+				po := pseudoFor(root, f)
+				if val, ok := given[f.Name()]; ok {
+					if isBoolType(f.Type()) && !(hasCall(val) && pe.inLoop > 0) {
+						// a boolean field: field ⇔ value (as for boolean assignments)
+						name := varKey(po)
+						if v := nv[po]; v > 0 {
+							name = fmt.Sprintf("%s@%d", name, v)
+						}
+						lhs, rhs := Formula(&FLit{"b:" + name, 2, 2}), pe.xlat(old, oldDefs).formula(val)
+						synth = append(synth, fnot(fand(fnot(fand(lhs, rhs)), fnot(fand(fnot(lhs), fnot(rhs))))))
+						continue
+					}
+					if _, isLit := ast.Unparen(val).(*ast.CompositeLit); !isLit && !hasImpureCall(pe, val) {
+						if t, ok := pe.xlat(old, oldDefs).term(val); ok {
+							if _, isBool := boolConst(pe.info, val); !isBool {
+								nd[po] = t
+							}
+						}
+					}
+					continue
+				}
+				if fieldsRead(pe.info, pe.fd)[f] {
+					synth = append(synth, zeroFacts(po, nv)...)
 				}
 			}
 		}
@@ -394,11 +454,7 @@ func (pe *pathEnum) applyAssign(q *Path, s ast.Stmt, assigned []types.Object) {
 		// x = y (plain identifier or pure term): x denotes the same value as y from here on
 		if len(as.Lhs) == len(as.Rhs) {
 			for i, l := range as.Lhs {
-				id, ok := ast.Unparen(l).(*ast.Ident)
-				if !ok {
-					continue
-				}
-				o := pe.info.ObjectOf(id)
+				o := lhsObject(pe.info, l)
 				if o == nil {
 					continue
 				}
@@ -429,13 +485,11 @@ func (pe *pathEnum) applyAssign(q *Path, s ast.Stmt, assigned []types.Object) {
 						name = t // pure getter chains keep their canonical term
 					}
 					for i, l := range as.Lhs {
-						if id, ok := ast.Unparen(l).(*ast.Ident); ok {
-							if o := pe.info.ObjectOf(id); o != nil {
-								if len(as.Lhs) == 1 {
-									nd[o] = name
-								} else {
-									nd[o] = fmt.Sprintf("%s.%d", name, i)
-								}
+						if o := lhsObject(pe.info, l); o != nil {
+							if len(as.Lhs) == 1 {
+								nd[o] = name
+							} else {
+								nd[o] = fmt.Sprintf("%s.%d", name, i)
 							}
 						}
 					}
@@ -444,14 +498,11 @@ func (pe *pathEnum) applyAssign(q *Path, s ast.Stmt, assigned []types.Object) {
 		}
 		if len(as.Lhs) == len(as.Rhs) {
 			for i, l := range as.Lhs {
-				id, ok := ast.Unparen(l).(*ast.Ident)
-				if !ok {
-					continue
-				}
-				o := pe.info.ObjectOf(id)
+				o := lhsObject(pe.info, l)
 				if o == nil {
 					continue
 				}
+				id := ast.Unparen(l)
 				b, ok := o.Type().Underlying().(*types.Basic)
 				if !ok || b.Info()&types.IsBoolean == 0 || (hasCall(as.Rhs[i]) && pe.inLoop > 0) {
 					// (outside loops a call occurrence is evaluated once on a path: the variable is that occurrence's value)
@@ -464,11 +515,61 @@ func (pe *pathEnum) applyAssign(q *Path, s ast.Stmt, assigned []types.Object) {
 			}
 		}
 	}
+	if isAssign && len(as.Lhs) == len(as.Rhs) {
+		// x = &T{…} / new(T): x is not nil
+		for i, l := range as.Lhs {
+			o := lhsObject(pe.info, l)
+			if o == nil {
+				continue
+			}
+			fresh := false
+			switch r := ast.Unparen(as.Rhs[i]).(type) {
+			case *ast.UnaryExpr:
+				_, isLit := ast.Unparen(r.X).(*ast.CompositeLit)
+				fresh = r.Op == token.AND && isLit
+			case *ast.CallExpr:
+				if fn, ok := r.Fun.(*ast.Ident); ok && fn.Name == "new" {
+					_, fresh = pe.info.Uses[fn].(*types.Builtin)
+				}
+			}
+			if !fresh {
+				continue
+			}
+			if name, ok := pe.xlat(nv, nd).term(l); ok && name != "nil" {
+				synth = append(synth, &FLit{eqAtom("nil", name), 2, 1})
+			}
+		}
+	}
 	q.ver, q.defs = nv, nd
 	addCond(q, CondStep{Label: "assign", Assign: assigned})
 	for _, f := range synth {
 		q.Conds = append(q.Conds, CondStep{Label: "assign", At: len(q.Events), F: f, Ver: nv})
 	}
+}
+
+// zeroFacts: o holds the zero value of its type (at its current epoch in ver).
+func zeroFacts(o types.Object, ver map[types.Object]int) []Formula {
+	var synth []Formula
+	name := varKey(o)
+	if v := ver[o]; v > 0 {
+		name = fmt.Sprintf("%s@%d", name, v)
+	}
+	switch t := o.Type().Underlying().(type) {
+	case *types.Basic:
+		if t.Info()&types.IsBoolean != 0 {
+			synth = append(synth, &FLit{"b:" + name, 2, 1})
+		}
+		if t.Info()&types.IsString != 0 {
+			synth = append(synth, &FLit{eqAtom("const:\"\"", name), 2, 2})
+		}
+		if t.Info()&types.IsInteger != 0 {
+			k, _ := orderAtom("const:0", name)
+			synth = append(synth, &FLit{k, 3, 2})
+		}
+	case *types.Pointer, *types.Interface, *types.Map, *types.Slice, *types.Chan, *types.Signature:
+		synth = append(synth, &FLit{eqAtom("nil", name), 2, 2})
+	}
+	return synth
 }
 
 // hasImpureCall: e contains a call that is not a conversion, builtin len or a pure getter.
@@ -549,9 +650,13 @@ func (pe *pathEnum) stmt(in []Path, s ast.Stmt) []Path {
 		if call, ok := s.X.(*ast.CallExpr); ok && pe.isTerminatingCall(call) {
 			term = true
 		}
+		handed := handedOver(pe.info, s)
 		var out []Path
 		for _, p := range in {
 			q := extend(p, evs)
+			if len(handed) > 0 {
+				pe.applyAssign(&q, s, handed)
+			}
 			if term {
 				q.End, q.EndNode = "panic", s
 			}
@@ -574,7 +679,7 @@ func (pe *pathEnum) stmt(in []Path, s ast.Stmt) []Path {
 		return out
 	case *ast.AssignStmt, *ast.IncDecStmt, *ast.DeclStmt, *ast.SendStmt, *ast.GoStmt, *ast.DeferStmt, *ast.EmptyStmt:
 		evs := pe.events(s)
-		assigned := pe.assigned(s)
+		assigned := append(handedOver(pe.info, s), pe.assigned(s)...)
 		var out []Path
 		for _, p := range in {
 			q := extend(p, evs)
@@ -1294,8 +1399,8 @@ func addFacts(info *types.Info, f *Facts, e ast.Expr, taken bool) {
 				side, other = x.Y, x.X
 			}
 			if other != nil {
-				if id, ok := ast.Unparen(side).(*ast.Ident); ok {
-					if o := info.ObjectOf(id); o != nil {
+				if lhsObject(info, side) != nil {
+					if o := lhsObject(info, side); o != nil {
 						if pos {
 							f.obj[o] = -1
 						} else {
@@ -1305,9 +1410,9 @@ func addFacts(info *types.Info, f *Facts, e ast.Expr, taken bool) {
 				}
 			}
 			// boolean constants: x == true / x == false
-			if id, ok := ast.Unparen(x.X).(*ast.Ident); ok {
+			if lhsObject(info, x.X) != nil {
 				if b, isB := boolConst(info, x.Y); isB {
-					if o := info.ObjectOf(id); o != nil {
+					if o := lhsObject(info, x.X); o != nil {
 						v := +1
 						if b != pos {
 							v = -1
@@ -1339,6 +1444,14 @@ func addFacts(info *types.Info, f *Facts, e ast.Expr, taken bool) {
 			}
 		}
 		return
+	case *ast.SelectorExpr:
+		if o := pseudoFieldObj(info, x); o != nil {
+			if taken {
+				f.obj[o] = +1
+			} else {
+				f.obj[o] = -1
+			}
+		}
 	}
 	v := -1
 	if taken {
